@@ -366,7 +366,7 @@ func nosyncProgram(rt *rapid.T, nHist int) (src string, contended []bool) {
 			sb.WriteString("\tout(\"" + fmt.Sprintf("h%d", h) + " unhashable \" + try(func() { m.Store([]int{1}, 1) }))\n")
 		default: // Pool: validity predicate (sync.Pool may drop or reorder items)
 			withNew := rapid.Bool().Draw(rt, "withNew")
-			sb.WriteString("\tvar p Pool\n\tfresh := 0\n\toutstanding := map[int]bool{}\n")
+			sb.WriteString("\tvar p Pool\n\tfresh := 0\n\t_ = fresh\n\toutstanding := map[int]bool{}\n\t_ = outstanding\n")
 			if withNew {
 				sb.WriteString("\tp.New = func() interface{} { fresh++; return 1000 + fresh }\n")
 			}
